@@ -8,7 +8,7 @@ R-BARY  calculate_closest_points applies the barycentric weights computed for (Y
 """
 import ast
 
-from ..core.astutil import u, call_name, calls, iter_stmts, is_neg_of, walk_ordered, parent_map, index_elts, const
+from ..core.astutil import resolved, u, call_name, calls, iter_stmts, is_neg_of, walk_ordered, parent_map, index_elts, const
 from ..core.index import AnalysisError, FuncInfo
 
 SCOPE = ["distance3d.gjk._gjk_jolt", "distance3d.gjk._gjk_libccd", "distance3d.gjk._gjk_original",
@@ -240,11 +240,13 @@ def r_par(idx, rep, rule="R-PAR", floor=10):
         fors = [st for st in iter_stmts(g.node.body) if isinstance(st, ast.For)]
         ok = False
         if ifs and fors:
-            t = u(ifs[0].test).replace(" ", "")
+            # the test is EVALUATED for every mask and row: however the bit is extracted (mask & 1 << i, mask >> i & 1, != 0, == 1, > 0, truthiness)
+            from ..core.astutil import eval_pure
             i = u(fors[0].target)
             simplex = g.params()[-1]
-            ok = t in ("%s&1<<%s!=0" % (simplex, i), "(%s&1<<%s)!=0" % (simplex, i), "%s&(1<<%s)!=0" % (simplex, i), "(%s&(1<<%s))!=0" % (simplex, i),
-                       "%s>>%s&1!=0" % (simplex, i), "%s&1<<%s" % (simplex, i), "(%s&1<<%s)>0" % (simplex, i))
+            test = resolved(g.node, ifs[0].test) if isinstance(ifs[0].test, ast.Name) else ifs[0].test
+            ok = all(bool(eval_pure(test, {simplex: mask, i: row})) == bool(mask >> row & 1) and eval_pure(test, {simplex: mask, i: row}) is not None
+                     for mask in range(16) for row in range(4))
         rep.check(ok, rule, g.key + "|keep rows whose bit is set", g.where,
                   "row i must be kept iff bit i of the simplex mask is set; test is `%s`" % (u(ifs[0].test) if ifs else "?"))
     # --- Simplex.add_point
